@@ -15,7 +15,7 @@ from healsparse import HealSparseMap  # noqa: E402
 from healsparse.packedBoolArray import _PackedBoolArray  # noqa: E402
 
 import enc  # noqa: E402
-from enc import DTYPES, enc_cells, enc_nats, enc_bits, split_list, dec_val, dec_dy, parse_args  # noqa: E402
+from enc import DTYPES, enc_cells, enc_nats, enc_ints, enc_bits, split_list, dec_val, dec_dy, parse_args  # noqa: E402
 
 assert os.path.realpath(healsparse.__file__).startswith(os.path.realpath(REPO)), healsparse.__file__
 
@@ -203,3 +203,56 @@ class Real(object):
         exported = self.export_state(m)
         obs = "covmask=%s abs=%s" % (enc_bits(m.coverage_mask), enc_cells(self.dense(m)))
         return obs, "state %s %s" % (pos[0], exported)
+
+    def op_valid(self, pos, kv):
+        m = self.m(pos[0])
+        path = kv.get('path', 'list')
+        npix = 12 * m.nside_sparse ** 2
+        if path == 'list':
+            v = m.valid_pixels
+        elif path == 'mask':
+            v, = np.where(m.get_values_pix(np.arange(npix, dtype=np.int64), valid_mask=True))
+        elif path == 'iter':
+            parts = [p for p in m.iter_valid_pixels_by_covpix()]
+            v = np.concatenate(parts) if parts else np.zeros(0, dtype=np.int64)
+        elif path == 'covpix_maps':
+            parts = [sub.valid_pixels for sub in m.get_covpix_maps()]
+            v = np.concatenate(parts) if parts else np.zeros(0, dtype=np.int64)
+        elif path == 'pos':
+            v = m.valid_pixels_pos(return_pixels=True)[0]
+        else:
+            raise BadOp(path)
+        return enc_ints(sorted(int(x) for x in v))
+
+    def op_nvalid(self, pos, kv):
+        m = self.m(pos[0])
+        path = kv.get('path', 'n_valid')
+        if path == 'n_valid':
+            return str(int(m.n_valid))
+        if path == 'area':
+            a = m.get_valid_area(degrees=False) / hpg.nside_to_pixel_area(m.nside_sparse, degrees=False)
+            if abs(a - round(a)) > 1e-6:
+                return 'nonintegral %r' % a
+            return str(int(round(a)))
+        if path == 'str':
+            s = str(m)
+            if 'valid pixels' not in s:
+                return 'nocount'
+            return s.split(' valid pixels')[0].split(', ')[-1].strip()
+        raise BadOp(path)
+
+    def op_covmap(self, pos, kv):
+        m = self.m(pos[0])
+        x = m.coverage_map * m._cov_map.nfine_per_cov
+        if np.any(np.abs(x - np.round(x)) > 1e-9):
+            return 'nonintegral'
+        return enc_nats(np.round(x).astype(np.int64))
+
+    def op_vpsc(self, pos, kv):
+        m = self.m(pos[0])
+        return enc_ints(sorted(int(x) for x in m.valid_pixels_single_covpix(int(kv['k']))))
+
+    def op_fracdet(self, pos, kv):
+        m = self.m(pos[0])
+        self.pool[kv['r']] = m.fracdet_map(2 ** int(kv['ord']))
+        return 'ok'
